@@ -65,4 +65,6 @@ class MeshTet2(MeshTet1):
         return replace(MeshTet2.from_mesh(m), _subdomains=m._subdomains)
 
     def _adaptive(self, marked):
-        return MeshTet2.from_mesh(MeshTet1.from_mesh(self).refined(marked))
+        m = replace(MeshTet1.from_mesh(self),
+                    _subdomains=self._subdomains).refined(marked)
+        return replace(MeshTet2.from_mesh(m), _subdomains=m._subdomains)
